@@ -153,6 +153,121 @@ async fn shoot_ws(to: SocketAddr, wire: &[u8], pieces: usize, hold_ms: u64) {
     let _ = tokio::time::timeout(Duration::from_millis(1), s.read(&mut buf)).await;
 }
 
+/// harness-side TLS client (the simulated certificate is its own trust root)
+async fn tls_open(to: SocketAddr) -> Option<tokio_rustls::client::TlsStream<TcpStream>> {
+    use tokio_rustls::rustls;
+    use tokio_rustls::rustls::pki_types::pem::PemObject;
+    let _ = rustls::crypto::aws_lc_rs::default_provider().install_default();
+    let mut roots = rustls::RootCertStore::empty();
+    roots.add(rustls::pki_types::CertificateDer::from_pem_file(CERT).ok()?).ok()?;
+    let cfg = rustls::ClientConfig::builder().with_root_certificates(roots).with_no_client_auth();
+    let mut s = TcpStream::connect(to).await.ok()?;
+    s.set_own_styles(0, 0);
+    s.set_peer_read_style(0);
+    let name = rustls::pki_types::ServerName::try_from("sim.test").ok()?;
+    tokio::time::timeout(Duration::from_secs(10), tokio_rustls::TlsConnector::from(Arc::new(cfg)).connect(name, s)).await.ok()?.ok()
+}
+
+/// harness-side QUIC client: a connection with the ALPN the real client uses and one bidirectional stream
+async fn quic_open(to: SocketAddr) -> Option<(quinn::Endpoint, quinn::Connection, tokio::io::Join<quinn::RecvStream, quinn::SendStream>)> {
+    use tokio_rustls::rustls;
+    use tokio_rustls::rustls::pki_types::pem::PemObject;
+    let _ = rustls::crypto::aws_lc_rs::default_provider().install_default();
+    let mut roots = rustls::RootCertStore::empty();
+    roots.add(rustls::pki_types::CertificateDer::from_pem_file(CERT).ok()?).ok()?;
+    let mut tls = rustls::ClientConfig::builder().with_root_certificates(roots).with_no_client_auth();
+    tls.alpn_protocols = vec![b"http/1.1".to_vec()];
+    let crypto = quinn::crypto::rustls::QuicClientConfig::try_from(tls).ok()?;
+    let mut ep = octo_squirrel::verif::quic::client_endpoint(SocketAddr::new(IpAddr::V4(Ipv4Addr::UNSPECIFIED), 0)).ok()?;
+    ep.set_default_client_config(quinn::ClientConfig::new(Arc::new(crypto)));
+    let conn = tokio::time::timeout(Duration::from_secs(10), ep.connect(to, "sim.test").ok()?).await.ok()?.ok()?;
+    let (send, recv) = conn.open_bi().await.ok()?;
+    Some((ep, conn, tokio::io::join(recv, send)))
+}
+
+async fn shoot_stream<S: tokio::io::AsyncRead + tokio::io::AsyncWrite + Unpin>(s: &mut S, wire: &[u8], pieces: usize, hold_ms: u64) {
+    let n = pieces.max(1);
+    let step = (wire.len() + n - 1) / n;
+    for chunk in wire.chunks(step.max(1)) {
+        if s.write_all(chunk).await.is_err() || s.flush().await.is_err() {
+            return;
+        }
+        if n > 1 {
+            tokio::time::sleep(Duration::from_millis(20)).await;
+        }
+    }
+    if hold_ms > 0 {
+        tokio::time::sleep(Duration::from_millis(hold_ms)).await;
+    }
+    let mut buf = [0u8; 512];
+    let _ = tokio::time::timeout(Duration::from_millis(1), s.read(&mut buf)).await;
+}
+
+/// `wire` to the server of this plan over its carrier (ws: inside binary messages), on a fresh connection
+async fn shoot_over(t: Transport, wire: &[u8], pieces: usize, hold_ms: u64) {
+    match t {
+        Transport::Ws => shoot_ws(server_addr(), wire, pieces, hold_ms).await,
+        Transport::Tls => {
+            if let Some(mut s) = tls_open(server_addr()).await {
+                shoot_stream(&mut s, wire, pieces, hold_ms).await;
+            }
+        }
+        Transport::Quic => {
+            if let Some((ep, conn, mut s)) = quic_open(server_addr()).await {
+                shoot_stream(&mut s, wire, pieces, hold_ms).await;
+                conn.close(0u32.into(), b"done");
+                drop(ep);
+            }
+        }
+        _ => shoot(server_addr(), wire, pieces, hold_ms).await,
+    }
+}
+
+async fn control_stream<S: tokio::io::AsyncRead + tokio::io::AsyncWrite + Unpin>(s: &mut S, cl: &mut RefClient, wire: &[u8]) -> Result<(), String> {
+    s.write_all(wire).await.map_err(|e| format!("write: {e}"))?;
+    let _ = s.flush().await;
+    let mut buf = vec![0u8; 4096];
+    for _ in 0..20 {
+        match tokio::time::timeout(Duration::from_millis(200), s.read(&mut buf)).await {
+            Ok(Ok(0)) | Ok(Err(_)) => break,
+            Ok(Ok(n)) => cl.feed(&buf[..n])?,
+            Err(_) => {}
+        }
+        if cl.payload.len() >= 17 {
+            break;
+        }
+    }
+    Ok(())
+}
+
+/// the legitimate user's flow over the plan's carrier
+async fn control_over(t: Transport, c: &Creds, g: &mut Gen, log: &Arc<Mutex<TLog>>, tag: &[u8]) -> Result<(), String> {
+    match t {
+        Transport::Tls | Transport::Quic => {
+            let addr = Addr::V4(T_IP, T_PORT);
+            let (mut cl, wire) = RefClient::start(c, g, unix_now(), &addr, tag, &ClientOpts::default());
+            if t == Transport::Tls {
+                let mut s = tls_open(server_addr()).await.ok_or("tls handshake of the control flow failed".to_owned())?;
+                control_stream(&mut s, &mut cl, &wire).await?;
+            } else {
+                let (ep, conn, mut s) = quic_open(server_addr()).await.ok_or("quic handshake of the control flow failed".to_owned())?;
+                control_stream(&mut s, &mut cl, &wire).await?;
+                conn.close(0u32.into(), b"done");
+                drop(ep);
+            }
+            let seen = log.lock().unwrap().tcp.iter().any(|c| c.windows(tag.len()).any(|w| w == tag));
+            if !seen {
+                return Err("the control request did not reach the target".into());
+            }
+            if cl.payload != b"target-says-hello" {
+                return Err(format!("the control answer did not come back ({} bytes)", cl.payload.len()));
+            }
+            Ok(())
+        }
+        _ => control_tcp_via(t == Transport::Ws, c, g, log, tag).await,
+    }
+}
+
 /// to the server of this plan: raw bytes on the port, or (WebSocket cells, every other call) inside WebSocket messages
 async fn shoot_server(ws: bool, nth: u64, wire: &[u8], pieces: usize, hold_ms: u64) {
     if ws && nth % 2 == 0 {
@@ -305,9 +420,17 @@ pub fn gen_adv(prop: &str, seed: u64, thorough: bool) -> Plan {
     let (proto, cipher, n_users) = cells[seed as usize % cells.len()];
     // C07: every third round runs the cell over the WebSocket carrier (raw bytes hit the upgrade parser, wrapped ones the
     // WebSocketFramed adapter in front of the same decoders)
-    let transport = if prop == "C07" && (seed / cells.len() as u64) % 3 == 2 { Transport::Ws } else { Transport::Tcp };
+    // C06: the carrier cycles over tcp / ws / tls / quic - the credential check sits behind every one of them
+    let transport = if prop == "C07" {
+        if (seed / cells.len() as u64) % 3 == 2 { Transport::Ws } else { Transport::Tcp }
+    } else {
+        [Transport::Tcp, Transport::Ws, Transport::Tls, Transport::Quic][(seed / cells.len() as u64 % 4) as usize]
+    };
     let mut config = gen_config(&mut g, proto, cipher, transport, n_users);
-    if proto == Proto::Shadowsocks {
+    if proto == Proto::Shadowsocks && transport == Transport::Quic {
+        // (the QUIC endpoint of a Shadowsocks server takes the place of its datagram service)
+        config.client_mode = "tcp".into();
+    } else if proto == Proto::Shadowsocks {
         config.server_mode = "tcp_and_udp".into();
         config.client_mode = "tcp_and_udp".into();
     } else {
@@ -329,7 +452,8 @@ pub fn gen_adv(prop: &str, seed: u64, thorough: bool) -> Plan {
 
 pub fn execute_c06(plan: &Plan) -> Outcome {
     let c = creds(&plan.config);
-    let cell = format!("{}{}", plan.config.family(), if c.user_keys.is_empty() { "" } else { "+users" });
+    let carrier = plan.config.transport;
+    let cell = format!("{}{}{}", plan.config.family(), if c.user_keys.is_empty() { "" } else { "+users" }, match carrier { Transport::Ws => "/ws", Transport::Tls => "/tls", Transport::Quic => "/quic", _ => "" });
     let mut g = Gen::new(plan.extra["sub_seed"].as_u64().unwrap_or(1), 61);
     let attacks = plan.extra["attacks"].as_u64().unwrap_or(40);
     let out = rt::run_sim(plan.seed, plan.net_seed, plan.knobs.to_knobs(), || async {
@@ -343,7 +467,7 @@ pub fn execute_c06(plan: &Plan) -> Outcome {
         }
         let server = start_server_json(plan.config.server_json());
         tokio::task::yield_now().await;
-        if !settle(|| tcp_listening(SERVER_PORT)).await {
+        if !settle(|| if carrier == Transport::Quic { udp_bound(SERVER_PORT) } else { tcp_listening(SERVER_PORT) }).await {
             return (Some(format!("server did not come up (finished={})", server.is_finished())), findings, n_attacks);
         }
         let addr = Addr::V4(T_IP, T_PORT);
@@ -412,7 +536,7 @@ pub fn execute_c06(plan: &Plan) -> Outcome {
             };
             *n_attacks.entry(name.clone()).or_insert(0) += 1;
             let before = (dials(), udp_to_target(), log.lock().unwrap().tcp.len());
-            shoot(server_addr(), &wire, 1 + (i % 3) as usize, 50).await;
+            shoot_over(carrier, &wire, 1 + (i % 3) as usize, 50).await;
             tokio::time::sleep(Duration::from_millis(50)).await;
             let after = (dials(), udp_to_target(), log.lock().unwrap().tcp.len());
             // a truncated valid handshake may legitimately have delivered complete units before the cut (it *is* authenticated);
@@ -427,7 +551,7 @@ pub fn execute_c06(plan: &Plan) -> Outcome {
                     findings.push(("relayed-garbage/truncated-valid-handshake".into(), format!("attack {i}: a truncated handshake made the server relay bytes that were never sent")));
                 }
             }
-            if plan.config.proto == Proto::Shadowsocks && i % 2 == 0 {
+            if plan.config.proto == Proto::Shadowsocks && i % 2 == 0 && carrier != Transport::Quic {
                 // the same idea as datagrams
                 let sock = UdpSocket::bind(SocketAddr::new(IpAddr::V4(Ipv4Addr::LOCALHOST), 0)).await.unwrap();
                 let how_n = g.next();
@@ -444,11 +568,11 @@ pub fn execute_c06(plan: &Plan) -> Outcome {
             }
         }
         // the service still works for the legitimate user, and answers under that user's key only
-        if let Err(e) = control_tcp(&c, &mut g, &log, b"legitimate-user-tag").await {
+        if let Err(e) = control_over(carrier, &c, &mut g, &log, b"legitimate-user-tag").await {
             findings.push(("control-failed".into(), e));
         }
         // user separation
-        if c.user_keys.len() >= 2 && plan.config.proto == Proto::Shadowsocks {
+        if c.user_keys.len() >= 2 && plan.config.proto == Proto::Shadowsocks && carrier != Transport::Quic {
             user_separation_udp(&c, &mut g, &mut findings).await;
         }
         (None, findings, n_attacks)
